@@ -11,14 +11,25 @@ COMMON_TB = [
 
 PROPS = {
     "C17": dict(
-        modules=["HT.Props.C17"],
-        streams=["c17dec"],
+        modules=["HT.Props.C17", "HT.Props.C17Ipp"],
+        streams=["c17dec", "c17ipp"],
         gen=False,
         rule="decoder: all op sequences up to the tier's length bound over 32 ops x boundary buffers of "
              "length 0..6 run on the implementation with the oracle (sequences <= 2 also through the Lean "
              "model), plus seeded random long sequences/large buffers; a case is non-trivial when at least "
-             "one read/copy/data op fits (reaches the value path); distinct = distinct case line",
-        trusted=COMMON_TB + ["Go int modelled as unbounded Int (C17_int_overflow_irrelevant covers the guard)"],
+             "one read/copy/data op fits (reaches the value path); distinct = distinct case line. "
+             "IPP: requests from an encoder written in the harness (not the service's): every ordered pair of attribute "
+             "kinds adjacent with 1..3 values before every delimiter, seeded requests over 5 operations, 1..3 groups, "
+             "0..6 attributes of every supported tag, 1..3 values, strings 0..300 (any bytes), documents up to 64 KiB, "
+             "through the real ippMsg.decode (verif hook) and through the real service Handle over HTTP on a loopback "
+             "TCP pair (reply body + event fields); malformed stream: every truncation of small requests, missing end "
+             "tag, byte mutations, random bytes; all through the Lean decoder/handler too; non-trivial = well-formed "
+             "request that decoded",
+        trusted=COMMON_TB + ["Go int modelled as unbounded Int (C17_int_overflow_irrelevant covers the guard)",
+                             "verif hook services/ipp/verif_hooks.go (renders the decoded message)",
+                             "IPP model reads from the remaining-bytes list in Option: the decoder's sticky error is "
+                             "returned by ippMsg.decode, so 'some read failed' = 'decode fails' (checked by the malformed stream)",
+                             "net/http request parsing and response writing around the IPP body (library)"],
         assumptions=["memory safety of the Go runtime slice primitives"],
     ),
     "C02": dict(
@@ -222,7 +233,7 @@ PROPS = {
     ),
 }
 
-HOOK_COMMITS = ["0596fc6", "c47bf54", "a8020ca", "beeea88", "49bef1d"]
+HOOK_COMMITS = ["0596fc6", "c47bf54", "a8020ca", "beeea88", "49bef1d", "2596f07"]
 
 NOT_BUILT = "check not built yet in this round (design in DESIGN.md section 7); not claimed until its theorems and correspondence stream exist"
 NOT_APPLICABLE = {("C%02d" % i): NOT_BUILT for i in range(1, 21)}
@@ -375,10 +386,15 @@ MANIFEST_TEXT = {
         text="Lean theorems: for every buffer, every in-bounds cursor and every operation sequence of any length with "
              "any integer arguments the decoder model never faults and keeps 0<=offset<=len; reads that fit return the "
              "big-endian value and advance, reads that do not fit return 0, set the error and consume nothing. The model "
-             "is tied to services/decoder by an exhaustive small-space + sampled differential run on every check.",
+             "is tied to services/decoder by an exhaustive small-space + sampled differential run on every check. IPP: every "
+             "well-formed request of any size (any number of groups, attributes, values; any document) decodes to exactly "
+             "what was encoded (C17_ipp_roundtrip, induction over groups/attributes/values with the one-byte look-ahead); "
+             "the reply decodes to the request's version and id with the charset/language group first; a print job's URI, "
+             "user, job name and document reach the event unchanged. Tied to services/ipp by decode renderings and whole-"
+             "service HTTP runs on every check.",
         design_ref="DESIGN.md section 7, C17",
         note="Trusted: Lean kernel; hand model HT.Dec of decoder.go (compared with the real decoder on every run); "
-             "harness oracle; Go int as Int (overflow lemma). IPP part: see evidence/DESIGN.",
+             "harness oracle; Go int as Int (overflow lemma); hand model HT.Ipp of services/ipp (compared on every run).",
         technique="Lean 4 proof over hand model + differential correspondence",
     ),
 }
